@@ -353,7 +353,7 @@ def build_tasks(quick):
         for nd in ([1, 10] if quick else digits):
             for neg in (False, True):
                 for nconst in (True, False):
-                    for ntype in (("int", "uint") if not quick or (not neg and nconst) else ("int",)):
+                    for ntype in (("int", "uint", "int [ 128 ]", "int [ 32 ]", "uint [ 128 ]") if not quick or nconst else ("int",)):
                         tasks.append(("constid", ty, nd, neg, nconst, ntype))
     for np_ in range(0, 5):
         for nq in range(1, 5):
